@@ -87,9 +87,9 @@ func runC20(c *Ctx) error {
 	if err != nil {
 		return err
 	}
-	n := 40
+	n := 60
 	if c.Thorough() {
-		n = 1000
+		n = 1500
 	}
 	keys := []string{"ka", "kb", "kc", "kd"}
 	seen := map[string]bool{}
@@ -104,13 +104,47 @@ func runC20(c *Ctx) error {
 		next, sufH, vcount, ocount, pcount := 0, -1, 0, 0, 0
 		opIDs := []string{"oX"}
 		nsteps := 3 + c.Intn(10)
+		// every fourth history starts with a fixed prefix: a key cached by the permanent database (kb) is updated by a
+		// block that also updates a key the permanent database never served (ka); then the random steps go on
+		var forced []string
+		if i%4 == 1 {
+			forced = []string{"B:kb", "B:ka", "M", "B:ka,kb", "B:", "M"}
+			if (i/4)%2 == 1 { // the other way round: which of the two comes first in the store's key order is not ours to say
+				forced = []string{"B:ka", "B:kb", "M", "B:ka,kb", "B:", "M"}
+			}
+			nsteps += len(forced)
+			c.Count("histories", "with-forced-prefix")
+		}
 		for st := 0; st < nsteps; st++ {
 			var tok string
-			switch k := c.Intn(10); {
+			k := c.Intn(13)
+			var forcedKeys []string
+			isForced := false
+			if len(forced) > 0 {
+				isForced = true
+				switch f := forced[0]; {
+				case f == "M":
+					k = 7
+				default:
+					k = 0
+					if f != "B:" {
+						forcedKeys = strings.Split(f[2:], ",")
+					}
+				}
+				forced = forced[1:]
+			}
+			switch {
 			case k < 7 || next == 0:
 				b := &c19block{Height: next, States: map[string]string{}, SufH: -1}
 				for _, key := range keys {
-					if c.Chance(1, 3) {
+					in := c.Chance(1, 3)
+					if isForced {
+						in = false
+						for _, fk := range forcedKeys {
+							in = in || fk == key
+						}
+					}
+					if in {
 						vcount++
 						b.States[key] = fmt.Sprintf("v%d", vcount)
 					}
@@ -136,15 +170,15 @@ func runC20(c *Ctx) error {
 				tops = append(tops, "c")
 				intemps++
 				next++
-			case k == 7:
+			case k < 10:
 				if err := d.center.MergeAllPermanent(); err != nil {
 					return err
 				}
 				tok = "MERGE"
-				for ; intemps > 0; intemps-- {
+				for ; intemps > 1; intemps-- { // the newest temp stays a temp ("keep last one in temps")
 					tops = append(tops, "m")
 				}
-			case k == 8:
+			case k == 10 || k == 11:
 				// a second block writer for the newest height (the next round's proposal was processed too) that is
 				// written but never merged: it stays on disk beside the merged one
 				if err := c20abandoned(d, next-1); err != nil {
@@ -174,6 +208,13 @@ func runC20(c *Ctx) error {
 			// quiescent point: every read, then the same reads from databases opened anew on the same storage
 			before := d.reads(keys, next, sufH, opIDs)
 			bbefore := d.byteReads(keys, next, sufH)
+			// the databases are not opened anew after every step: what they keep in memory (last reads, state cache)
+			// lives across several steps, as in a running node
+			if st != nsteps-1 && (len(forced) > 0 || c.Chance(1, 2)) {
+				c.Count("quiescent-points", "read-only")
+				continue
+			}
+			c.Count("quiescent-points", "reopened")
 			if err := d.open(); err != nil {
 				return fmt.Errorf("reopen: %w", err)
 			}
